@@ -42,13 +42,25 @@ def run (s : Sexp) : String :=
       let os := orders dh
       let bools := [true, false]
       let qs : List StoreQuirks := bools.flatMap fun a => bools.flatMap fun b => bools.map fun d => ⟨a, b, d⟩
-      let all := qs.flatMap fun q => (if q.selfRef then os else os.take 1).map fun o =>
-        showResult (persistReload q o unmap c.via c.heap c.roots)
+      let results := qs.flatMap fun q => (if q.selfRef then os else os.take 1).map fun o =>
+        persistReload q o unmap c.via c.heap c.roots
+      -- F-C05-4 (= F-C04-2): every admissible outcome of temporary-parent id collisions in from_dao
+      let withStale : Option (List Nat × Heap × DB) → List String := fun r =>
+        match r with
+        | some (roots, h, db) =>
+          let cs := (staleChoices h [] (subSlots h)).filter (fun (ch : List (Nat × Nat)) => !ch.isEmpty)
+          (cs.take 32).map fun (ch : List (Nat × Nat)) => showResult (some (roots, staleParent h ch, db))
+        | none => []
+      let all := results.map showResult ++ results.flatMap withStale
+      let trig4 := match results.head? with
+        | some (some (_, h, _)) => trigStaleParent h
+        | _ => false
       let distinct := dedupStrings all
       let spec := canon c.heap c.roots ++ " rows:" ++ showCounts (specCounts c.heap c.roots)
       let trig := (if trigSelfRef dh then ["F-C05-1"] else [])
         ++ (if trigStale unmap c.heap c.roots then ["F-C05-2"] else [])
         ++ (if trigDup dh then ["F-C05-3"] else [])
+        ++ (if trig4 then ["F-C05-4"] else [])
       let models := match distinct with
         | [] => "model=error:model"
         | m :: rest => "\t".intercalate (s!"model={m}" :: (rest.zipIdx.map fun (p : String × Nat) => s!"model_{p.2 + 1}={p.1}"))
